@@ -321,6 +321,11 @@ class Module:
             self.tree = ast.parse(self.source, filename=self.path)
         except SyntaxError as e:
             raise AnalysisError(f"{relpath} does not parse: {e}") from e
+        self.alpha = {}
+        if os.environ.get("PGV_NO_ALPHA") != "1":
+            from . import alpha
+
+            self.alpha = alpha.normalise_module(self.tree, relpath)
         set_parents(self.tree)
         for n in ast.walk(self.tree):
             n._pgv_module = self
